@@ -9,8 +9,10 @@ package main
 import (
 	"encoding/json"
 	"fmt"
+	"math/rand"
 	"os"
 	"reflect"
+	"strconv"
 	"strings"
 
 	"github.com/ichiban/prolog"
@@ -180,4 +182,142 @@ func normJ(x J) J {
 	default:
 		return []J{t[0], t[1]}
 	}
+}
+
+// Family "writetok" (C06, writer side; "writing uses exactly that table" of C18): a case of RoundTrip.tla is concretised
+// as in family "roundtrip", written by the real writer, and the text is cut into tokens by the real lexer (accessor
+// engine.VerifTokens). The record (term, the operator definitions of the names that occur, tokens) is validated by TLC
+// with SyntaxTrace.tla: the term must be one the ISO grammar gives these tokens under this table.
+func init() {
+	register("writetok", &family{handle: writetokHandle})
+}
+
+func writetokHandle(c map[string]J) map[string]J {
+	table, writer := c["table"].(string), c["writer"].(string)
+	b := &rtBuilder{r: rand.New(rand.NewSource(caseSeedJ(c, 0)))}
+	top := b.term(c["term"].([]J))
+	var out strings.Builder
+	p := prolog.New(strings.NewReader(""), &out)
+	for _, o := range tableOps[table] {
+		if sol := p.QuerySolution(o + "."); sol.Err() != nil {
+			return map[string]J{"status": "badcase", "detail": o + ": " + sol.Err().Error()}
+		}
+	}
+	q := strings.Join(append(b.goals, "'='(T, "+top+")", writerGoal(writer, "T")), ", ") + " ."
+	sols, err := p.Query(q, b.args...)
+	if err != nil {
+		return map[string]J{"status": "badcase", "detail": err.Error() + " in " + q}
+	}
+	if !sols.Next() {
+		sols.Close()
+		return map[string]J{"status": "discard", "why": "term could not be built"}
+	}
+	var cap struct{ T capture }
+	_ = sols.Scan(&cap)
+	sols.Close()
+	text := out.String()
+	input := fmt.Sprintf("table=%s writer=%s written as: %s", table, writer, text)
+	vtoks, _ := engine.VerifTokens(strings.NewReader(text + " ."))
+	if n := len(vtoks); n == 0 || vtoks[n-1].Kind != "end" {
+		return map[string]J{"status": "mismatch", "input": input, "what": "the written text followed by ' .' does not end in an end token", "expected": "tokens ... end", "observed": fmt.Sprint(vtoks), "sig": "C06:tokens"}
+	}
+	vtoks = vtoks[:len(vtoks)-1]
+	if len(vtoks) > 24 {
+		return map[string]J{"status": "discard", "why": "more than 24 tokens"}
+	}
+	var toks []J
+	names := map[string]bool{",": true, "|": true}
+	vars := map[string]int{}
+	punct := map[string]string{"open": "(", "open ct": "(ct", "close": ")", "open list": "[", "close list": "]", "open curly": "{", "close curly": "}", "bar": "|", "comma": ","}
+	for _, t := range vtoks {
+		switch t.Kind {
+		case "letter digit", "graphic", "semicolon", "cut":
+			toks = append(toks, []J{"n", t.Val})
+			names[t.Val] = true
+		case "quoted":
+			// the name a quoted token denotes is taken from the real reader (quoting is the business of the round-trip law)
+			a, err := engine.NewParser(&p.VM, strings.NewReader(t.Val+" .")).Term()
+			at, ok := a.(engine.Atom)
+			if err != nil || !ok {
+				return map[string]J{"status": "discard", "why": "quoted token not readable on its own"}
+			}
+			toks = append(toks, []J{"n", at.String()})
+			names[at.String()] = true
+		case "variable":
+			if _, ok := vars[t.Val]; !ok {
+				vars[t.Val] = len(vars) + 1
+			}
+			toks = append(toks, []J{"v", vars[t.Val]})
+		case "integer":
+			// decimal digits only (the magnitude of the least integer does not fit an int64: kept as text)
+			if strings.Trim(t.Val, "0123456789") != "" {
+				return map[string]J{"status": "discard", "why": "integer token not in decimal notation"}
+			}
+			d := strings.TrimLeft(t.Val, "0")
+			if d == "" {
+				d = "0"
+			}
+			toks = append(toks, []J{"num", d})
+		case "float number":
+			f, err := strconv.ParseFloat(t.Val, 64)
+			if err != nil {
+				return map[string]J{"status": "discard", "why": "float token not parsable"}
+			}
+			toks = append(toks, []J{"num", strconv.FormatFloat(f, 'g', -1, 64)})
+		default:
+			s, ok := punct[t.Kind]
+			if !ok {
+				return map[string]J{"status": "discard", "why": "token kind outside the grammar: " + t.Kind}
+			}
+			toks = append(toks, []J{"p", s})
+		}
+	}
+	// the operator definitions of the names that occur
+	var tab []J
+	class := map[string]string{"fy": "pre", "fx": "pre", "xfx": "inf", "xfy": "inf", "yfx": "inf", "xf": "post", "yf": "post"}
+	ops, err := p.Query("current_op(P, S, N).")
+	if err != nil {
+		return map[string]J{"status": "badcase", "detail": err.Error()}
+	}
+	for ops.Next() {
+		var r struct {
+			P int
+			S string
+			N string
+		}
+		if err := ops.Scan(&r); err != nil {
+			continue
+		}
+		if names[r.N] {
+			tab = append(tab, []J{r.N, class[r.S], r.P, r.S})
+		}
+	}
+	_ = ops.Close()
+	varIDs := map[engine.Variable]int{}
+	term := syntaxEnc(cap.T.term, cap.T.env, varIDs)
+	return map[string]J{"status": "recorded", "input": input, "events": []J{map[string]J{"ev": "written", "term": term, "table": tab, "toks": toks, "text": text}}}
+}
+
+// syntaxEnc encodes a term the way Syntax.tla writes terms (numbers by their canonical text).
+func syntaxEnc(t engine.Term, env *engine.Env, ids map[engine.Variable]int) J {
+	switch t := env.Resolve(t).(type) {
+	case engine.Variable:
+		if _, ok := ids[t]; !ok {
+			ids[t] = len(ids) + 1
+		}
+		return []J{"v", ids[t]}
+	case engine.Atom:
+		return []J{"a", t.String()}
+	case engine.Integer:
+		return []J{"num", strconv.FormatInt(int64(t), 10)}
+	case engine.Float:
+		return []J{"num", strconv.FormatFloat(float64(t), 'g', -1, 64)}
+	case engine.Compound:
+		args := make([]J, t.Arity())
+		for i := range args {
+			args[i] = syntaxEnc(t.Arg(i), env, ids)
+		}
+		return []J{"c", t.Functor().String(), args}
+	}
+	return []J{"a", fmt.Sprintf("$%T", t)}
 }
